@@ -83,11 +83,11 @@ def render(cls, rid, d, rnd):
         m = rnd.choice(session.KNOWN_REQ)
         p = {"textDocument": td(d, f), "position": pos}
         if m == "workspace/symbol":
-            p = {"query": rnd.choice(["", "a", "T1", "zz"])}
+            p = {"query": rnd.choice(["", "a", "T1", "zz", "caf\u00e9", "\ud800q"])}
         elif m == "textDocument/documentSymbol":
             p = {"textDocument": td(d, f)}
         elif m == "textDocument/rename":
-            p["newName"] = "zz"
+            p["newName"] = rnd.choice(["zz", "zz", "z\u00e9", "\udc00z"])
         elif m == "textDocument/references":
             p["context"] = {"includeDeclaration": True}
         elif m == "textDocument/codeAction":
@@ -117,7 +117,8 @@ def render(cls, rid, d, rnd):
             msg["params"] = [1, 2, 3]
         return msg
     if cls == "unknown":
-        return {"jsonrpc": "2.0", "id": rid, "method": rnd.choice(["foo/bar", "textDocument/foo", "$/unknownReq", "", "textDocument/hoverX", "workspace/executeCommand"]),
+        return {"jsonrpc": "2.0", "id": rid, "method": rnd.choice(["foo/bar", "textDocument/foo", "$/unknownReq", "", "textDocument/hoverX", "workspace/executeCommand",
+                                                                         "caf\u00e9/\U0001f600", "custom/\ud800probe"]),
                 "params": rnd.choice([{}, None, {"textDocument": td(d, f)}])}
     if cls == "sync":
         m = rnd.choice(session.SYNC)
@@ -148,7 +149,7 @@ def render(cls, rid, d, rnd):
     if cls == "other":
         return {"jsonrpc": "2.0", "method": rnd.choice(session.OTHER_NOTE), "params": rnd.choice([{}, None, {"id": 1}])}
     if cls == "unknownN":
-        return {"jsonrpc": "2.0", "method": rnd.choice(["foo/note", "$/progress", "workspace/didChangeWorkspaceFolders", "textDocument/willSave", ""]),
+        return {"jsonrpc": "2.0", "method": rnd.choice(["foo/note", "$/progress", "workspace/didChangeWorkspaceFolders", "textDocument/willSave", "", "n\u00f8te/\udfff"]),
                 "params": {}}
     if cls == "exit":
         return {"jsonrpc": "2.0", "method": "exit"}
